@@ -1011,6 +1011,30 @@ def shrink(c):
             d["kw"] = c["kw"][:j] + c["kw"][j + 1:]
             out.append(d)
         return out
+    if c["kind"] == "map":
+        fs = c["funcs"]
+        for j in range(len(fs) - 1, -1, -1):          # drop a function nobody reads (and the inputs only it used)
+            if len(fs) < 2 or (c.get("late") and c["late"][0] >= j):
+                continue
+            produced = set(fs[j]["outs"])
+            if any(produced & set(cur_names(g)) for g in fs):
+                continue
+            d = copy.deepcopy(c)
+            d["funcs"] = fs[:j] + fs[j + 1:]
+            used = {p for g in d["funcs"] for p in cur_names(g)}
+            keep = lambda kvs: [kv for kv in kvs if kv[0] in used or kv[0] == "zz"]   # noqa: E731
+            d["inputs"] = keep(d["inputs"])
+            d["internal"] = [kv for kv in (d.get("internal") or []) if kv[0] not in produced]
+            if d["prev"] is not None:
+                d["prev"]["inputs"] = keep(d["prev"]["inputs"])
+                d["prev"]["internal"] = [kv for kv in (d["prev"].get("internal") or []) if kv[0] not in produced]
+            out.append(d)
+        if c["prev"] is not None and not c["cleanup"]:
+            d = copy.deepcopy(c)
+            d["prev"] = None
+            d["mode"] = "fresh"
+            out.append(d)
+        return out
     if c["kind"] not in ("construct",):
         return out
     fs = c["funcs"]
